@@ -71,6 +71,7 @@ func (t *c17Target) Unmarshal(b []byte) error {
 type c17Legacy struct {
 	failUnmarshal, failMarshal bool
 	unmarshals, marshals       int
+	sawBytes                   []byte // the wire bytes the legacy decoder was given
 }
 
 func (m *c17Legacy) Marshal() ([]byte, error) {
@@ -82,6 +83,7 @@ func (m *c17Legacy) Marshal() ([]byte, error) {
 }
 func (m *c17Legacy) Unmarshal(b []byte) error {
 	m.unmarshals++
+	m.sawBytes = append([]byte{}, b...)
 	if m.failUnmarshal {
 		return errors.New("legacy unmarshal failed")
 	}
@@ -118,7 +120,18 @@ func verifStub_RepairInvalidUTF8(v any) (bool, error) {
 	}
 	return c17Conv.repairChanged, nil
 }
-func verifStub_Materialize(s mem.BufferSlice) []byte { return []byte{7} }
+
+// c17Wire: the received message as gRPC hands it over — one buffer per HTTP/2 DATA frame
+func c17Wire() (mem.BufferSlice, []byte) {
+	switch verifChoose("receive-buffers", 3) {
+	case 0:
+		return mem.BufferSlice{mem.SliceBuffer([]byte{1, 2, 3, 4})}, []byte{1, 2, 3, 4}
+	case 1:
+		verifReach("message-in-two-buffers")
+		return mem.BufferSlice{mem.SliceBuffer([]byte{1, 2}), mem.SliceBuffer([]byte{3, 4})}, []byte{1, 2, 3, 4}
+	}
+	return mem.BufferSlice{mem.SliceBuffer([]byte{1}), mem.SliceBuffer([]byte{2, 3}), mem.SliceBuffer([]byte{4})}, []byte{1, 2, 3, 4}
+}
 
 func verifHarness_C17_codec() {
 	d := &c17Delegate{outcome: verifChoose("delegate", 3)}
@@ -131,7 +144,15 @@ func verifHarness_C17_codec() {
 	c17Conv.repairErr = verifNondetBool("repair-error")
 	c17Conv.adminCalls, c17Conv.frontendCalls, c17Conv.repairCalls = 0, 0, 0
 
-	err := codec.Unmarshal(mem.BufferSlice{}, t)
+	wire, whole := c17Wire()
+	err := codec.Unmarshal(wire, t)
+	if c17Conv.legacy.unmarshals > 0 {
+		same := len(c17Conv.legacy.sawBytes) == len(whole)
+		for i := range whole {
+			same = same && i < len(c17Conv.legacy.sawBytes) && c17Conv.legacy.sawBytes[i] == whole[i]
+		}
+		verifAssert(same, "repair-stages-work-on-the-whole-received-message(all-buffers)")
+	}
 
 	verifAssert(d.calls == 1, "standard-codec-consulted-exactly-once")
 	switch d.outcome {
